@@ -18,6 +18,7 @@ Proof. exact accepted_len_iff. Qed.
 Theorem C11_code_path :
   forall svd : nat -> (nat -> nat -> R) -> option (nat -> R),
   (forall n M sv, svd n M = Some sv -> is_svd n M sv) ->
+  (forall n M sv, svd n M = Some sv -> forall k, (k < n)%nat -> 0 <= sv k) ->
   forall (len : nat) (a : nat -> cx R),
     match schmidt_number svd len a with
     | ErrNotSquare => forall d : nat, len <> (d * d)%nat
@@ -32,6 +33,7 @@ Proof. exact schmidt_number_spec. Qed.
 Theorem C11_nan_iff_zero :
   forall svd : nat -> (nat -> nat -> R) -> option (nat -> R),
   (forall n M sv, svd n M = Some sv -> is_svd n M sv) ->
+  (forall n M sv, svd n M = Some sv -> forall k, (k < n)%nat -> 0 <= sv k) ->
   forall (d : nat) (a : nat -> cx R), svd d (mag_matrix d a) <> None ->
   (schmidt_number svd (d * d) a = OkNaN <-> forall i j, (i < d)%nat -> (j < d)%nat -> mag_matrix d a i j = 0).
 Proof. exact schmidt_number_nan_iff. Qed.
@@ -43,6 +45,7 @@ Proof. exact src_schmidt_number_eq. Qed.
 Theorem C11_source_code_path :
   forall svd : nat -> (nat -> nat -> R) -> option (nat -> R),
   (forall n M sv, svd n M = Some sv -> is_svd n M sv) ->
+  (forall n M sv, svd n M = Some sv -> forall k, (k < n)%nat -> 0 <= sv k) ->
   forall (len : nat) (a : nat -> cx R),
     match src_schmidt_number svd len a with
     | ErrNotSquare => forall d : nat, len <> (d * d)%nat
@@ -61,6 +64,7 @@ Proof. exact src_svd_args_pinned. Qed.
 Theorem C11_setup_level :
   forall svd : nat -> (nat -> nat -> R) -> option (nat -> R),
   (forall n M sv, svd n M = Some sv -> is_svd n M sv) ->
+  (forall n M sv, svd n M = Some sv -> forall k, (k < n)%nat -> 0 <= sv k) ->
   forall J g n, g_cols g = n -> g_rows g = n ->
     src_setup_schmidt_number svd J g = schmidt_number svd (grid_len g) (tabulate J g) /\
     match src_setup_schmidt_number svd J g with
@@ -74,6 +78,7 @@ Proof. exact src_setup_level. Qed.
 Theorem C11_rejects_nonsquare :
   forall svd : nat -> (nat -> nat -> R) -> option (nat -> R),
   (forall n M sv, svd n M = Some sv -> is_svd n M sv) ->
+  (forall n M sv, svd n M = Some sv -> forall k, (k < n)%nat -> 0 <= sv k) ->
   forall (len : nat) (a : nat -> cx R),
     schmidt_number svd len a = ErrNotSquare <-> forall d : nat, len <> (d * d)%nat.
 Proof. exact schmidt_number_rejects. Qed.
@@ -148,24 +153,30 @@ Theorem C11_exec_twin : forall n mags,
   Q2R (trG2_Q n mags) = trG2 ROps n (mat_of n (Rmags mags)).
 Proof. exact exec_twin_correct. Qed.
 
-(* rounding of the arithmetic AFTER the SVD (binary64 round-to-nearest, any tie rule): for non-negative singular values, sides up
-   to 40, the returned fl(fl(N^ N^)/D^) with N^ = sum fl(s^2), D^ = sum fl(fl(s^2) fl(s^2)) is within 1e-13 relative of
-   (sum s^2)^2 / sum s^4 — for ANY order of the rounded additions: every binary summation tree [t] over the n terms of height <= n
-   (left-to-right, nalgebra's unrolled dot products, pairwise, blocked ...).
-   PARTIAL: exponent range unbounded (FLX: no under/overflow — cf. finding F16 at scales beyond 1e+-75), powi(4) as the square of
-   the square; the accuracy of the singular values themselves remains the oracle contract. *)
-Theorem C11_rounding_partial : forall (choice : Z -> bool) n sv (t : stree),
-  (n <= 40)%nat -> (forall k, 0 <= sv k) -> 0 < sv_kinv n sv ->
+(* rounding of the arithmetic AFTER the SVD (binary64 round-to-nearest, any tie rule): sigma the non-negative singular values the SVD
+   returned, m = max sigma > 0; the code forms x_k = fl(sigma_k / m), N^ = sum fl(x^2), D^ = sum fl(fl(x^2) fl(x^2)) and returns
+   fl(fl(N^ N^)/D^).  For sides up to 40 this is within 1e-13 relative of (sum sigma^2)^2 / sum sigma^4 (the ratio is invariant under the
+   normalisation) — for ANY order of the rounded additions: every binary summation tree [t] over the n terms of height <= n.
+   PARTIAL: exponent range unbounded (FLX) — after the normalisation all intermediate values lie in [0, n], so overflow cannot
+   occur and underflow only affects terms below 1e-77 of the largest; powi(4) as the square of the square; the accuracy of the
+   singular values themselves remains the oracle contract. *)
+Theorem C11_rounding_partial : forall (choice : Z -> bool) n sigma (t : stree),
+  (n <= 40)%nat -> (forall k, 0 <= sigma k) -> 0 < sv_max n sigma -> 0 < sv_kinv n sigma ->
   (forall a, teval t a = rsum n a) -> (theight t <= n)%nat ->
-  let K := sv_norm_squared n sv * sv_norm_squared n sv / sv_kinv n sv in
-  Rabs (Khat (b64_rnd choice) sv (tfl (b64_rnd choice) t) - K) <= 1e-13 * K.
+  let K := sv_norm_squared n sigma * sv_norm_squared n sigma / sv_kinv n sigma in
+  Rabs (Khat (b64_rnd choice) (b64_normalised choice n sigma) (tfl (b64_rnd choice) t) - K) <= 1e-13 * K.
 Proof. exact schmidt_rounding_b64_any_order. Qed.
 
-Theorem C11_rounding_left_to_right_partial : forall (choice : Z -> bool) n sv,
-  (n <= 40)%nat -> (forall k, 0 <= sv k) -> 0 < sv_kinv n sv ->
-  let K := sv_norm_squared n sv * sv_norm_squared n sv / sv_kinv n sv in
-  Rabs (Khat (b64_rnd choice) sv (fsum (b64_rnd choice) n) - K) <= 1e-13 * K.
+Theorem C11_rounding_left_to_right_partial : forall (choice : Z -> bool) n sigma,
+  (n <= 40)%nat -> (forall k, 0 <= sigma k) -> 0 < sv_max n sigma -> 0 < sv_kinv n sigma ->
+  let K := sv_norm_squared n sigma * sv_norm_squared n sigma / sv_kinv n sigma in
+  Rabs (Khat (b64_rnd choice) (b64_normalised choice n sigma) (fsum (b64_rnd choice) n) - K) <= 1e-13 * K.
 Proof. exact schmidt_rounding_b64. Qed.
+
+(* the normalisation by the largest singular value does not change K (homogeneity of degree 0) *)
+Theorem C11_normalisation_invariant : forall n sv m,
+  m <> 0 -> sv_kinv n sv <> 0 -> schmidt_of_sv n (fun k => sv k / m) = schmidt_of_sv n sv.
+Proof. exact schmidt_of_sv_scale. Qed.
 
 (* ---- non-vacuity *)
 Example C11_nonvacuous_nonzero : nonzero_matrix 2 (outer (fun _ => 1) (fun _ => 2)).
@@ -185,7 +196,8 @@ Proof. exact svd_example_2. Qed.
 
 Example C11_nonvacuous_rounding :
   let t := Node (Node (Leaf 0) (Leaf 1)) (Leaf 2) in
-  (forall a, teval t a = rsum 3 a) /\ (theight t <= 3)%nat /\ (forall k : nat, 0 <= (fun _ => 1) k) /\ 0 < sv_kinv 3 (fun _ => 1).
+  let sigma := fun k : nat => match k with O => 2 | _ => 1 end in
+  (forall a, teval t a = rsum 3 a) /\ (theight t <= 3)%nat /\ (forall k : nat, 0 <= sigma k) /\ 0 < sv_max 3 sigma /\ 0 < sv_kinv 3 sigma.
 Proof. exact rounding_example_tree. Qed.
 
 Example C11_nonvacuous_exec : Qeq (schmidt_K_Q 2 (1%Q :: 0%Q :: 0%Q :: 1%Q :: nil)) 2%Q /\ Qeq (schmidt_K_Q 2 (1%Q :: 2%Q :: 2%Q :: 4%Q :: nil)) 1%Q.
@@ -214,6 +226,7 @@ Print Assumptions C11_moduli_only.
 Print Assumptions C11_transpose.
 Print Assumptions C11_transpose_matrix.
 Print Assumptions C11_rounding_partial.
+Print Assumptions C11_normalisation_invariant.
 Print Assumptions C11_rounding_left_to_right_partial.
 Print Assumptions C11_nan_iff_zero.
 Print Assumptions C11_svd_call_pinned.
